@@ -6,7 +6,7 @@ from pathlib import Path
 import numpy as np
 from hypothesis import strategies as st
 
-from . import env, datasets as D
+from . import env, rec, datasets as D
 
 TSV_FILES = ['cluster_Amplitude.tsv', 'cluster_ContamPct.tsv', 'cluster_KSLabel.tsv']
 
@@ -22,7 +22,7 @@ def tsv_content(fn, clusters, salt):
         elif 'Amplitude' in fn:
             out[c] = 1.5 * c + 0.25 + salt
         else:
-            out[c] = float(c * 10 + salt) / 4.0
+            out[c] = float((c + salt) % 4) * 2.5        # exact zeros occur (ContamPct of 0.0)
     return out
 
 
@@ -67,14 +67,17 @@ def merge_case(draw, max_probes=4, exclude_f13=True, max_nc=6, max_ns=25, big_te
         p['pcf']['ind'] = [row[:wf] for row in p['pcf']['ind']]
         p['tf']['nloc'] = wt
         p['tf']['ind'] = [row[:wt] for row in p['tf']['ind']]
-    return {'probes': probes, 'f13_excluded': excluded}
+    # probe directory names: the order GIVEN defines probe k; it is not always the lexicographic one
+    return {'probes': probes, 'f13_excluded': excluded,
+            'dir_names': draw(st.sampled_from(['asc', 'desc', 'num']))}
 
 
 def build_probes(case, root):
     """Write every probe directory; returns the list of truths."""
     Ts = []
     for i, spec in enumerate(case['probes']):
-        d = Path(root) / ('probe%d' % i)
+        d = Path(root) / rec.part_names(len(case['probes']), case.get('dir_names', 'asc'),
+                                        stem='probe')[i]
         T = D.build(spec, d)
         T.tsv = {}
         for fn, present in spec.get('tsv', {}).items():
